@@ -216,6 +216,9 @@ class Survey:
             dim = 3 * len(pl)
             el = ["9"] * dim
             clusters.append({"type": "coords", "points": pl, "cov": {"dim": dim, "band": 0, "el": el}})
+        if self.t in ("vecmix3d", "freevec3d"):
+            # these templates exist for the numbering of unknowns by vectors between two new points: vector clusters come first
+            clusters.sort(key=lambda c: 0 if c["type"] == "vectors" else 1)
         if rnd:
             rnd.shuffle(pts)
             rnd.shuffle(clusters)
@@ -402,9 +405,12 @@ def apply_edit(sv, e):
             p["approx"] = "omit"
     elif k == "PerturbApprox":
         d = e["mm"] / 1000.0
+        if e["mm"] > 300:
+            s.params["tol-abs"] = 10.0 * e["mm"]
         for i, p in enumerate(s.pts):
             if p["role"] == "unk":
-                p["pert"] = (d * (1 if i % 2 else -1), d * (1 if i % 3 else -1), d * 0.5)
+                # different for every point and coordinate (equal corrections would hide an exchange of unknowns)
+                p["pert"] = (d * (1 if i % 2 else -1) * (1 + 0.3 * i), d * (1 if i % 3 else -1) * (0.5 + 0.2 * i), d * 0.5 * (1 + 0.1 * i))
     elif k == "ChangeDatum":
         sets = {1: ("A", "B"), 2: ("C", "D"), 3: ("A", "C", "D"), 4: tuple(p["id"] for p in s.pts), 5: ("A", "D")}[e["s"]]
         for p in s.pts:
@@ -467,6 +473,9 @@ def ellipse_dir(P, sv, pid):
 
 def check_law(A, B, e, law, svA, svB, report, tolc=3e-6):
     """A, B physical projections before / after edit e; report(check, text)"""
+    # a perturbed start ends where gama's linearization test is satisfied, not at the limit of the iteration: second-order
+    # quantities (sum of squares, standard deviations, ellipse directions) agree to about 1e-4, coordinates to the usual tolerance
+    loose = 50.0 if e.get("k") == "PerturbApprox" else 1.0
     if A["outcome"] != "adjusted" or B["outcome"] != "adjusted":
         if A["outcome"] != B["outcome"]:
             report("outcome", "outcome %s becomes %s" % (A["outcome"], B["outcome"]))
@@ -487,9 +496,9 @@ def check_law(A, B, e, law, svA, svB, report, tolc=3e-6):
             if A[f] != B[f]:
                 report("stats", "%s %s -> %s" % (f, A[f], B[f]))
         # consistent observations: sum of squares is rounding noise (< 1e-6), nothing to compare
-        if max(A["pvv"], B["pvv"]) > 1e-6 and not rel(A["pvv"], B["pvv"], 2e-5, 1e-9):
+        if max(A["pvv"], B["pvv"]) > 1e-6 and not rel(A["pvv"], B["pvv"], 2e-5 * loose, 1e-9):
             report("stats", "sum of squares %r -> %r" % (A["pvv"], B["pvv"]))
-        if max(A["pvv"], B["pvv"]) > 1e-6 and not rel(A["aposteriori"], B["aposteriori"], 2e-5, 1e-6):
+        if max(A["pvv"], B["pvv"]) > 1e-6 and not rel(A["aposteriori"], B["aposteriori"], 2e-5 * loose, 1e-6):
             report("stats", "aposteriori %r -> %r" % (A["aposteriori"], B["aposteriori"]))
     if law["stats"] == "sigma":
         r = (e["num"] / e["den"])
@@ -514,7 +523,7 @@ def check_law(A, B, e, law, svA, svB, report, tolc=3e-6):
                 report("obs_adj", "adjusted %s: %r -> %r" % (key, oa["adj"], ob["adj"]))
             if law["obs"] != "sigma" and oa["stdev"] is not None and svA.params["sigma-act"] == svB.params["sigma-act"]:
                 sa, sb = oa["stdev"], ob["stdev"]
-                if not rel(sa, sb, 5e-5, 1e-7):
+                if not rel(sa, sb, 5e-5 * loose, 1e-7):
                     report("obs_stdev", "stdev of adjusted %s: %r -> %r" % (key, sa, sb))
     # --- orientations
     if law["obs"] in ("superset", "any") or law["coords"] == "datum":
@@ -529,7 +538,7 @@ def check_law(A, B, e, law, svA, svB, report, tolc=3e-6):
             wb = w if svB.lh else -w
             if svA.axes != svB.axes or svA.lh != svB.lh:
                 continue              # the orientation unknown is defined relative to the described axes
-            if abs(wrap200(va - wb)) > 3e-7:
+            if abs(wrap200(va - wb)) > 3e-7 * (10 if loose > 1 else 1):
                 report("ori", "orientation unknown of %s (physical): %r -> %r" % (s_, va, wb))
     else:
         for s_, v in A["ori"].items():
@@ -546,14 +555,17 @@ def check_law(A, B, e, law, svA, svB, report, tolc=3e-6):
         pass
     if law["cov"] in ("same", "perm", "axes"):
         scale = max([abs(v) for v in A["cov"].values()] + [1e-12])
+        # after a perturbed start gama stops iterating as soon as its linearization test passes: the Jacobian is taken a few
+        # millimetres off the final point and the covariances agree to about 1e-4 only
+        ctol = 1e-3 if e.get("k") == "PerturbApprox" else 5e-5
         for key, v in A["cov"].items():
             w = B["cov"].get(key)
             if w is None:
                 if A["cov_band"] == B["cov_band"] and law["cov"] == "same":
                     report("cov", "covariance %s missing" % (key,))
                 continue
-            if abs(v - w) > 5e-5 * scale:
-                if abs(v + w) <= 5e-5 * scale and (inconsistent(svA) or inconsistent(svB)):
+            if abs(v - w) > ctol * scale:
+                if abs(v + w) <= ctol * scale and (inconsistent(svA) or inconsistent(svB)):
                     report("cov_sign_inconsistent_system", "covariance %s: %r -> %r (sign of x-y terms not restored when gama flips y internally)" % (key, v, w))
                 else:
                     report("cov", "covariance %s: %r -> %r" % (key, v, w))
@@ -563,12 +575,12 @@ def check_law(A, B, e, law, svA, svB, report, tolc=3e-6):
             eb = B["ell"].get(pid)
             if eb is None:
                 continue
-            if not rel(ea["major"], eb["major"], 5e-5, 1e-3) or not rel(ea["minor"], eb["minor"], 5e-5, 1e-3):
+            if not rel(ea["major"], eb["major"], ctol, 1e-3) or not rel(ea["minor"], eb["minor"], ctol, 1e-3):
                 report("ellipse_axes", "ellipse of %s: semi-axes %r,%r -> %r,%r" % (pid, ea["major"], ea["minor"], eb["major"], eb["minor"]))
             elif ea["major"] > 1.001 * ea["minor"]:
                 # angle between the two physical lines
                 d = abs(ea["dir"][0] * eb["dir"][1] - ea["dir"][1] * eb["dir"][0])
-                if d > 2e-4:
+                if d > 2e-4 * loose:
                     mir = abs(ea["dir"][0] * eb["dir"][1] + ea["dir"][1] * eb["dir"][0])
                     if inconsistent(svA) or inconsistent(svB):
                         report("ellipse_dir_inconsistent_system", "major axis of the ellipse of %s turns (physical direction %s -> %s)" % (pid, ea["dir"], eb["dir"]))
